@@ -24,6 +24,29 @@ func genCallOf(v ssa.Value) *ssa.Call {
 	return c
 }
 
+// uniformDraw recognises a draw of a uniformly random integer below 2^bits from the system source: the
+// library's RandomBigInt(bits), or its body written out, big.RandInt(crypto/rand.Reader, 2^bits).
+func uniformDraw(P *Program, c *ssa.Call) (Affine, bool) {
+	switch calleeName(c) {
+	case "common.RandomBigInt":
+		return affineOf(c.Call.Args[0])
+	case "big.RandInt":
+		if len(c.Call.Args) != 2 || desc(c.Call.Args[0]) != "global:crypto/rand.Reader" {
+			return Affine{}, false
+		}
+		ts := P.bigEval(c.Parent()).at(c)
+		if len(ts) != 2 || ts[1].Top || len(ts[1].norm().M) != 1 {
+			return Affine{}, false
+		}
+		for _, m := range ts[1].norm().M {
+			if len(m.syms) == 0 && m.coef.Cmp(bigOneM) == 0 {
+				return m.exp, true
+			}
+		}
+	}
+	return Affine{}, false
+}
+
 // randRow: one tabled randomiser: in function Fn, the sink (store / map update) whose target descriptor
 // matches Sink gets the result of Gen called with a length/limit whose descriptor is Arg.
 type randRow struct {
@@ -303,9 +326,9 @@ func randomizerSourceRule(P *Program, R *Report) {
 	R.decide(rule, "distinct-generator-calls", "no generator call result is stored in two randomisers", len(shared) == 0, strings.Join(shared, "; "), "")
 
 	// randomizers passed by value: sCommit of proveCommitment, the shared secretkey randomiser, keyshare randomiser, eCommit of proveSignature
-	if fn := mustFunc(P, R, rule, "gabi.(*CredentialBuilder).proveCommitment"); fn != nil {
+	if fn := mustFunc(P, R, rule, "gabi.(*CredentialBuilder).CommitToSecretAndProve"); fn != nil {
 		ok := false
-		for _, s := range sinksOf(fn) {
+		for _, s := range sinksOfDeep(fn) {
 			if s.key == `"secretkey"` {
 				if g := genCallOf(s.val); g != nil && calleeName(g) == "common.RandomBigInt" {
 					a, _ := affineOf(g.Call.Args[0])
